@@ -515,6 +515,9 @@ where
                     tracing::error!(error=%err, "error during delayed drop");
                 }
             });
+        } else if matches!(self.inner, InnerCheckoutConnecting::Waiting) {
+            // This checkout only waited for somebody else's connection attempt,
+            // which is not ours to cancel.
         } else if let Some(mut pool) = self.pool.lock() {
             // Connection is only cancled when no delayed drop occurs.
             pool.cancel_connection(self.token);
